@@ -125,6 +125,71 @@ def runModel (flavour : String) (chunks : List Bytes) (term : Term) (extra : Nat
   if flavour == "s" || flavour == "S" || flavour == "M" then sessionS fuel extra .initial { cap := DEFAULT_CAP, data := [] } chunks term
   else sessionA fuel extra .initial [] chunks term
 
+/-! ### transports with recoverable read failures (`proto.flaky`)
+
+The model's transport script is "chunks, then a terminal condition". A read that fails once and
+works again later is the same script in pieces: the piece before the failure ends in that error; the
+call that reports it leaves the connection state (`σ`, buffer) from which the next call goes on with
+the next piece. The composition below only threads that state through the model's own `recvA` /
+`recvS`; nothing else is added. -/
+
+/-- `seg` entries: `some n` = a chunk of n bytes, `none k` … encoded as `Sum` -/
+def parseSegF (s : String) : Option (List (Nat ⊕ Nat)) :=
+  (s.splitOn ",").mapM fun e =>
+    if e.startsWith "!" then (e.drop 1).toString.toNat?.map Sum.inr else e.toNat?.map Sum.inl
+
+/-- pieces of the script: chunks up to a failure marker with that failure as terminal; the last piece
+ends in the real terminal condition -/
+def cutPieces (stream : Bytes) (seg : List (Nat ⊕ Nat)) (term : Term) : List (List Bytes × Term) :=
+  let rec go (s : Bytes) (seg : List (Nat ⊕ Nat)) (cur : List Bytes) : List (List Bytes × Term) :=
+    match seg with
+    | [] => [(cur, term)]
+    | .inl n :: rest => go (s.drop n) rest (cur ++ [s.take n])
+    | .inr k :: rest => (cur, .ioerr k) :: go s rest []
+  go stream seg []
+
+def isIo : Item → Bool
+  | .io _ => true
+  | _ => false
+
+def flakyA : Nat → Nat → BState → Bytes → List Bytes → Term → List (List Bytes × Term) → List Item
+  | 0, _, _, _, _, _, _ => []
+  | fuel + 1, extra, σ, buf, cs, t, more =>
+    match recvA σ buf (cs.filter (!·.isEmpty)) t with
+    | (.resp r, buf', cs', σ') => .resp r :: flakyA fuel extra σ' buf' cs' t more
+    | (it, buf', cs', σ') =>
+      let (cs2, t2, more2) :=
+        if cs'.isEmpty && isIo it then (match more with | (c, t') :: m => (c, t', m) | [] => (cs', t, [])) else (cs', t, more)
+      match extra with
+      | 0 => [it]
+      | e + 1 => it :: flakyA fuel e σ' buf' cs2 t2 more2
+
+def flakyS : Nat → Nat → BState → SBuf → List Bytes → Term → List (List Bytes × Term) → List Item
+  | 0, _, _, _, _, _, _ => []
+  | fuel + 1, extra, σ, b, cs, t, more =>
+    match recvS σ b (cs.filter (!·.isEmpty)) t with
+    | (.resp r, b', cs', σ') => .resp r :: flakyS fuel extra σ' b' cs' t more
+    | (it, b', cs', σ') =>
+      let (cs2, t2, more2) :=
+        if cs'.isEmpty && isIo it then (match more with | (c, t') :: m => (c, t', m) | [] => (cs', t, [])) else (cs', t, more)
+      match extra with
+      | 0 => [it]
+      | e + 1 => it :: flakyS fuel e σ' b' cs2 t2 more2
+
+def runFlaky (flavour : String) (stream : Bytes) (pieces : List (List Bytes × Term)) (extra : Nat) : List Item :=
+  let fuel := stream.length + 2 + extra + pieces.length
+  match pieces with
+  | [] => []
+  | (cs, t) :: more =>
+    if flavour == "s" || flavour == "S" then flakyS fuel extra .initial { cap := DEFAULT_CAP, data := [] } cs t more
+    else flakyA fuel extra .initial [] cs t more
+
+/-- remove, in order, one `io<k>` item per scripted failure -/
+def dropFaultItems : List String → List Nat → List String
+  | l, [] => l
+  | [], _ => []
+  | x :: xs, k :: ks => if x == s!"io{k}" then dropFaultItems xs ks else x :: dropFaultItems xs (k :: ks)
+
 /-- whole-stream reference (`decodeAll`): everything in one chunk -/
 def runWhole (stream : Bytes) (term : Term) : List Item :=
   decodeAll (stream.length + 2) stream term
@@ -198,6 +263,29 @@ def handle (toks : List String) (impl : String) : Verdict :=
         else "ok"
       { model := model ++ "#" ++ reads, oracle, branch := branchOf items stream chunks.length }
     | _, _, _, _ => bad "proto.recv-args"
+  | ["proto.flaky", fl, sh, seg, tm, ex] =>
+    match unhex sh, parseSegF seg, parseTerm tm, ex.toNat? with
+    | some stream, some segf, some term, some extra =>
+      let pieces := cutPieces stream segf term
+      let items := runFlaky fl stream pieces extra
+      let model := fmtItems items
+      let kinds := segf.filterMap fun e => match e with | .inr k => some k | _ => none
+      let implList := if implItems.isEmpty then [] else implItems.splitOn "|"
+      -- specification side: a failed read delivers nothing, so without the failure reports the calls
+      -- return what the whole stream decodes to, followed by repetitions of the end
+      let clean := dropFaultItems implList kinds
+      let whole := (runWhole stream term).map fmtItem
+      let oracle :=
+        if implItems == "PANIC" then "fail:panic"
+        else if implItems == "HANG" then "fail:hang"
+        else if implList.length != clean.length + kinds.length then "fail:a-failed-read-was-not-reported"
+        else if clean.take whole.length != whole then "fail:a-failed-read-changed-what-was-received"
+        else if (clean.drop whole.length).any (fun x => some x != whole.getLast?) then
+          "fail:result-after-the-end-differs-from-the-end"
+        else if !(agreesWithRef whole (refItems stream) term) then "fail:differs-from-line-grammar"
+        else "ok"
+      { model := model ++ "#" ++ reads, oracle, branch := s!"flaky{kinds.length}-{branchOf items stream segf.length}" }
+    | _, _, _, _ => bad "proto.flaky-args"
   | ["proto.abs", fl, rs, seg, cut, ex] =>
     match parseAbsResps rs, parseSeg seg, ex.toNat? with
     | some resps, some lens, some extra =>
